@@ -78,6 +78,10 @@ EXPLANATION += (
     ' Round 9: where a stale output of an earlier run is removed, every normally returning path writes the output or removes what was there (R-FRESH/stale-output-removed).'
 )
 
+EXPLANATION += (
+    ' Round 10: no directory is created by mkdir / makedirs in worker code or under a scratch parameter (R-FRESH/directories-only-by-mkdtemp).'
+)
+
 RULE_TEXT = (
     "one obligation per (CLI runner, input key), per write effect root, "
     "per temp acquisition and exit-set mode, per listing, per worker "
